@@ -48,6 +48,16 @@ theorem request_data_sites :
       (s.1.startsWith "Write:" ∨ s.1.startsWith "Read:") ∧ lvlDebug ≤ s.2.1 := by
   decide +kernel
 
+/-- Known finding F23, witnessed in the model: *received* frames are dumped whenever the caller's level is Trace or
+    higher — the authentication window does not cover the reply — so bytes a peer sends back (for instance an echo
+    of the authentication request) appear in the log at levels 6…98. The stream `log` replays this on the real
+    client (scenario 4) and the check reports it as KNOWN-FINDING `password-reflected-by-peer`. -/
+theorem known_finding_received_dump_is_logged (L : Nat) (h : lvlTrace ≤ L) :
+    ("Read:Tracef:read plain", lvlTrace, Payload.plainDump) ∈ siteClass ∧ emitted L lvlTrace = true := by
+  refine ⟨by decide +kernel, ?_⟩
+  simp only [emitted, lvlTrace] at *
+  exact decide_eq_true h
+
 /-- at the documented override the window is not lowered (the statement is about levels below 99 only) -/
 example : authWindowLevel 99 = 99 := by decide
 
@@ -59,3 +69,4 @@ end Rscp.Props.C11
 #print axioms Rscp.Props.C11.auth_window_quiet
 #print axioms Rscp.Props.C11.auth_frame_not_logged
 #print axioms Rscp.Props.C11.request_data_sites
+#print axioms Rscp.Props.C11.known_finding_received_dump_is_logged
